@@ -40,20 +40,29 @@ def gaussian_pixel_mass(b0, b1, p0, p1, mu, cov):
     lo, hi = max(b0, mu[0] - 40 * sx), min(b1, mu[0] + 40 * sx)
     if hi <= lo:
         return 0.0
-    pts = []
-    # the conditional mean crosses the pixel's persistence band where m(x) = p0 or p1
+    # piecewise integration between break points: the Gaussian's own scale around the mean (a pixel can be hundreds of
+    # sigma wide - adaptive quadrature on the whole pixel under-resolves the peak by ~1e-6) and the places where the
+    # conditional mean crosses the pixel's persistence band
+    cuts = {lo, hi}
+    for kk in (-12, -8, -5, -3, -2, -1, 0, 1, 2, 3, 5, 8, 12):
+        q = mu[0] + kk * sx
+        if lo < q < hi:
+            cuts.add(q)
     if r != 0:
+        w = s * sx / abs(r * sy)
         for pv in (p0, p1):
             xc = mu[0] + (pv - mu[1]) * sx / (r * sy)
-            for q in (xc - 6 * s * sx / abs(r * sy), xc, xc + 6 * s * sx / abs(r * sy)):
+            for q in (xc - 8 * w, xc - 3 * w, xc - w, xc, xc + w, xc + 3 * w, xc + 8 * w):
                 if lo < q < hi:
-                    pts.append(q)
-    if lo < mu[0] < hi:
-        pts.append(mu[0])
+                    cuts.add(q)
+    cuts = sorted(cuts)
+    tot = 0.0
     with warnings.catch_warnings():
         warnings.simplefilter("ignore")
-        v, _ = quad(f, lo, hi, epsabs=1e-13, epsrel=1e-12, limit=300, points=sorted(set(pts)) or None)
-    return float(v)
+        for a, b in zip(cuts, cuts[1:]):
+            v, _ = quad(f, a, b, epsabs=1e-15, epsrel=1e-12, limit=200)
+            tot += v
+    return float(tot)
 
 
 def pixel_edges(origin, ps, n):
